@@ -61,6 +61,10 @@ def cells(tier):
         out.append(cell(f"s2 X1,H=M2/1,G=A1 size{seq[0]},cgroupG,size{seq[1]} slowecb(X) (resized)", sc, MON))
     sc = scen(pool(2, "SimpleTaskPool", worker="absorb", ecb="plain", ccb="plain"), [[S("G", 2)], [["stop", 1]], [CALL]], outcomes=["ret"])
     out.append(cell("simple s2 G=S2 absorb stop1 call", sc, MON))
+    # an unknown name (here: the name a later start() will be given) raises and changes nothing - also not later
+    for nm in ("start-group-1", "start-group-2"):
+        sc = scen(pool(2, "SimpleTaskPool", ecb="plain", ccb="plain"), [[S("G", 1), ["cancel_group", "?" + nm], S("H", 2), S("K", 1)], [["stop", 1]]], outcomes=["ret"])
+        out.append(cell(f"simple s2 G=S1,cgroup(unknown {nm}),H=S2,K=S1|stop1", sc, MON))
     sc = scen(pool(2, "SimpleTaskPool", ecb="plain", ccb="plain"), [[S("G", 3)], [S("H", 2)], [cgroup("G")]], outcomes=["ret"])
     out.append(cell("simple s2 G=S3 H=S2 cgroup", sc, MON))
     if not q:
